@@ -1,0 +1,214 @@
+// Copyright 2024 Kelvin Clement Mwinuka
+//
+// Licensed under the Apache License, Version 2.0 (the "License");
+// you may not use this file except in compliance with the License.
+// You may obtain a copy of the License at
+//
+//	http://www.apache.org/licenses/LICENSE-2.0
+//
+// Unless required by applicable law or agreed to in writing, software
+// distributed under the License is distributed on an "AS IS" BASIS,
+// WITHOUT WARRANTIES OR CONDITIONS OF ANY KIND, either express or implied.
+// See the License for the specific language governing permissions and
+// limitations under the License.
+
+package internal
+
+import (
+	"encoding/json"
+	"fmt"
+	"strconv"
+	"sync"
+	"time"
+)
+
+// KeyData is persisted (snapshots, AOF preamble) as JSON. The Value field is an interface{},
+// so plain JSON encoding loses the type of the value: integers come back as float64, lists as
+// []interface{}, and sets and sorted sets (whose fields are unexported) come back empty.
+// KeyData therefore marshals itself as an envelope that names the type of the value.
+
+// CompositeCodec encodes and decodes one composite value type (set, sorted set, ...).
+// The packages that define composite types register their codec in an init function.
+type CompositeCodec struct {
+	// Marshal returns the JSON encoding of v and true if v is a value of this composite type.
+	Marshal func(v interface{}) ([]byte, bool, error)
+	// Unmarshal rebuilds the composite value from its JSON encoding.
+	Unmarshal func(b []byte) (interface{}, error)
+}
+
+var (
+	compositeCodecsMut sync.RWMutex
+	compositeCodecs    = map[string]CompositeCodec{}
+)
+
+// RegisterCompositeCodec registers the codec used to persist the composite type with the given name.
+func RegisterCompositeCodec(name string, codec CompositeCodec) {
+	compositeCodecsMut.Lock()
+	defer compositeCodecsMut.Unlock()
+	compositeCodecs[name] = codec
+}
+
+type persistedScalar struct {
+	Type  string `json:"Type"` // string | int | int64 | float | nil
+	Value string `json:"Value"`
+}
+
+type persistedKeyData struct {
+	Type     string          `json:"Type"`
+	Value    json.RawMessage `json:"Value"`
+	ExpireAt time.Time       `json:"ExpireAt"`
+}
+
+func encodeScalar(v interface{}) (persistedScalar, bool) {
+	switch t := v.(type) {
+	case nil:
+		return persistedScalar{Type: "nil"}, true
+	case string:
+		return persistedScalar{Type: "string", Value: t}, true
+	case int:
+		return persistedScalar{Type: "int", Value: strconv.Itoa(t)}, true
+	case int64:
+		return persistedScalar{Type: "int64", Value: strconv.FormatInt(t, 10)}, true
+	case float64:
+		return persistedScalar{Type: "float", Value: strconv.FormatFloat(t, 'g', -1, 64)}, true
+	}
+	return persistedScalar{}, false
+}
+
+func decodeScalar(s persistedScalar) (interface{}, error) {
+	switch s.Type {
+	case "nil":
+		return nil, nil
+	case "string":
+		return s.Value, nil
+	case "int":
+		return strconv.Atoi(s.Value)
+	case "int64":
+		return strconv.ParseInt(s.Value, 10, 64)
+	case "float":
+		return strconv.ParseFloat(s.Value, 64)
+	}
+	return nil, fmt.Errorf("unknown persisted scalar type %q", s.Type)
+}
+
+// MarshalJSON encodes the key data together with the type of its value.
+func (k KeyData) MarshalJSON() ([]byte, error) {
+	out := persistedKeyData{ExpireAt: k.ExpireAt}
+	var err error
+	if s, ok := encodeScalar(k.Value); ok {
+		out.Type = "scalar"
+		out.Value, err = json.Marshal(s)
+		if err != nil {
+			return nil, err
+		}
+		return json.Marshal(out)
+	}
+	switch v := k.Value.(type) {
+	case []string:
+		out.Type = "list"
+		if v == nil {
+			v = []string{}
+		}
+		out.Value, err = json.Marshal(v)
+	case map[string]interface{}:
+		out.Type = "hash"
+		fields := make(map[string]persistedScalar, len(v))
+		for field, value := range v {
+			s, ok := encodeScalar(value)
+			if !ok {
+				return nil, fmt.Errorf("hash field %s has unsupported type %T", field, value)
+			}
+			fields[field] = s
+		}
+		out.Value, err = json.Marshal(fields)
+	default:
+		compositeCodecsMut.RLock()
+		defer compositeCodecsMut.RUnlock()
+		for name, codec := range compositeCodecs {
+			b, ok, cerr := codec.Marshal(k.Value)
+			if !ok {
+				continue
+			}
+			if cerr != nil {
+				return nil, cerr
+			}
+			out.Type = name
+			out.Value = b
+			return json.Marshal(out)
+		}
+		return nil, fmt.Errorf("type %T cannot be persisted", k.Value)
+	}
+	if err != nil {
+		return nil, err
+	}
+	return json.Marshal(out)
+}
+
+// UnmarshalJSON decodes key data written by MarshalJSON. Data written before the value type
+// was recorded (no Type field) is decoded the way it used to be.
+func (k *KeyData) UnmarshalJSON(b []byte) error {
+	var in persistedKeyData
+	if err := json.Unmarshal(b, &in); err != nil {
+		return err
+	}
+	k.ExpireAt = in.ExpireAt
+	switch in.Type {
+	case "":
+		var legacy interface{}
+		if len(in.Value) > 0 {
+			if err := json.Unmarshal(in.Value, &legacy); err != nil {
+				return err
+			}
+		}
+		k.Value = legacy
+		return nil
+	case "scalar":
+		var s persistedScalar
+		if err := json.Unmarshal(in.Value, &s); err != nil {
+			return err
+		}
+		v, err := decodeScalar(s)
+		if err != nil {
+			return err
+		}
+		k.Value = v
+		return nil
+	case "list":
+		list := []string{}
+		if err := json.Unmarshal(in.Value, &list); err != nil {
+			return err
+		}
+		if list == nil {
+			list = []string{}
+		}
+		k.Value = list
+		return nil
+	case "hash":
+		fields := map[string]persistedScalar{}
+		if err := json.Unmarshal(in.Value, &fields); err != nil {
+			return err
+		}
+		hash := make(map[string]interface{}, len(fields))
+		for field, s := range fields {
+			v, err := decodeScalar(s)
+			if err != nil {
+				return err
+			}
+			hash[field] = v
+		}
+		k.Value = hash
+		return nil
+	}
+	compositeCodecsMut.RLock()
+	codec, ok := compositeCodecs[in.Type]
+	compositeCodecsMut.RUnlock()
+	if !ok {
+		return fmt.Errorf("unknown persisted value type %q", in.Type)
+	}
+	v, err := codec.Unmarshal(in.Value)
+	if err != nil {
+		return err
+	}
+	k.Value = v
+	return nil
+}
